@@ -42,7 +42,7 @@ def gen_case(rng, i, tier, setups):
     if streaming:
         ops.append("open 0 0 %d" % rng.choice([4096, 7, 513]))
         if rng.random() < 0.8:
-            ops.append("halfrate 0 1")
+            ops.append("halfrate 0 %d" % rng.choice([1, 1, 1, 2, 7]))
         ops += ["read 0 %d" % rng.choice([64, 4096]) for _ in range(rng.randint(3, 60))]
         ops.append("clear 0")
         return ops, lens, small0          # a streaming handle knows the first link only
@@ -50,14 +50,14 @@ def gen_case(rng, i, tier, setups):
     ops += ["total 0 -1"]
     if rng.random() < 0.25:
         # the whole file at half rate: counts per link
-        ops.append("halfrate 0 1")
+        ops.append("halfrate 0 %d" % rng.choice([1, 1, 4]))
         ops.append("total 0 -1")
         ops += ["read 0 4096"] * (total // 64 + 12 * nl + 8)
         ops += ["tell 0", "clear 0"]
         return ops, lens, small
     offgrid = nl > 1 and rng.random() < 0.5
     if offgrid:
-        ops.append("halfrate 0 1")
+        ops.append("halfrate 0 %d" % rng.choice([1, 1, 2]))
     for _ in range(rng.randint(4, 16)):
         r = rng.random()
         if offgrid and r < 0.5:
@@ -71,7 +71,8 @@ def gen_case(rng, i, tier, setups):
                 ops += ["tell 0", "halfrate 0 %d" % rng.randint(0, 1), "tell 0"]
         elif r < 0.3:
             ops.append("tell 0")
-            ops.append("halfrate 0 %d" % rng.randint(0, 1))
+            # "zero turns it off; nonzero turns it on" (ov_halfrate): any non-zero flag is the same switch
+            ops.append("halfrate 0 %d" % rng.choice([0, 0, 0, 1, 1, 1, 2, -1, 256, 3]))
             ops.append("tell 0")
         elif r < 0.6:
             ops += ["read 0 %d" % rng.choice([1, 7, 64, 4096]) for _ in range(rng.randint(1, 4))]
@@ -117,7 +118,7 @@ def oracle(d, lens, small):
             if int(a.split(" ")[1]) != total:
                 return "total: ov_pcm_total says %s with half-rate %d, the file has %d full-rate samples" % (a.split(" ")[1], hs, total)
         elif t[0] == "halfrate":
-            want = int(t[2])
+            want = 1 if int(t[2]) != 0 else 0
             if want and small:
                 if f["rc"] != "OV_EINVAL" or f["p"] != "0":
                     return "refuse-64: half-rate accepted on a chain with 64-sample short blocks: " + a
